@@ -53,6 +53,10 @@ def gen_device(rng, family=None, dev_id=None):
     else:
         tn = "BREEZE"
         rid = bytes(rng.choice(b"ABCDEFGHIJKLMNOPQRSTUVWXYZ0123456789") for _ in range(8)).hex()
+        import harvest
+        ids = harvest.strs_like(lambda x: len(x) == 8 and x.isalnum() and x.isascii())
+        if ids and rng.random() < 0.25:
+            rid = rng.choice(ids).encode().hex()
         fields = (f"{tn} {TH[tn]} {rng.randrange(2)} {rng.randrange(1, 6)} {rng.randrange(4)} {rng.randrange(2)} "
                   f"{rng.choice([0, 1, 245, 256, 65535, rng.randrange(65536)])} {rng.choice([0, 16, 30, 255, rng.randrange(256)])} {rid} {gen_common(rng, dev_id)}")
     bg = rng.randbytes(LEN[family]).hex() if rng.random() < 0.7 else "00" * LEN[family]
